@@ -34,6 +34,7 @@ STRUCT = {
     "MODE-PURE": RS.rule_mode_pure,
     "UNSAFE-INV": RS.rule_unsafe_inv,
     "MAYBEUNINIT": RS.rule_maybeuninit,
+    "NO-BACKTRACK": RS.rule_no_backtrack,
     "HOOKS-WRITERS": RH.rule_who_may_write,
     "HOOKS-TOKEN": RH.rule_token_hooks,
     "HOOKS-SAVE-REWIND": RH.rule_save_rewind,
@@ -51,6 +52,7 @@ STRUCT = {
     "MEMO-WRITERS": RT.rule_memo_writers,
     "BUILDER-PROV": RT.rule_builder_prov,
     "CHAR-PROV": RT.rule_char_prov,
+    "ERR-PROV": RT.rule_err_prov,
     "ENTRY-SIB": RT.rule_entry_sib,
     "NONCONSUMPTION-FWD": RT.rule_nonconsumption,
     "CHAR-SIB": RX.rule_char_sib,
@@ -63,26 +65,26 @@ STRUCT = {
 
 # "K" = the contract automata that serve this property (spec/contract_map.py)
 PROP_RULES = {
-    "C01": ["K", "D:POISON", "SEQ-PROV", "GRAMMAR", "ENTRY", "ENTRY-SIB", "CLONE-FIELDS"],
-    "C02": ["K", "D:POISON", "BUILDER-PROV", "GRAMMAR", "CLONE-FIELDS", "ENTRY-SIB"],
-    "C03": ["ENTRY", "K", "STREAM", "D:POISON", "MODE-PURE", "GRAMMAR", "ENTRY-SIB", "SUB-INPUT", "D:KEEP*", "HOOKS-WRITERS", "INPUT-MISC"],
+    "C01": ["K", "D:POISON", "SEQ-PROV", "GRAMMAR", "ENTRY", "ENTRY-SIB", "CLONE-FIELDS", "MODE-PAIR", "NO-BACKTRACK"],
+    "C02": ["K", "D:POISON", "BUILDER-PROV", "GRAMMAR", "CLONE-FIELDS", "ENTRY-SIB", "MODE-PAIR"],
+    "C03": ["ENTRY", "K", "STREAM", "D:POISON", "MODE-PURE", "GRAMMAR", "ENTRY-SIB", "SUB-INPUT", "D:KEEP*", "HOOKS-WRITERS", "INPUT-MISC", "MODE-PAIR"],
     "C04": ["MODE-PAIR", "MODE-PURE", "K", "D:POISON", "ENTRY-SIB"],
-    "C05": ["D:POISON", "D:KEEP", "D:LIFO", "HOOKS-SAVE-REWIND", "HOOKS-WRITERS", "MODE-PURE", "SUB-INPUT", "K"],
+    "C05": ["D:POISON", "D:KEEP", "D:LIFO", "HOOKS-SAVE-REWIND", "HOOKS-WRITERS", "MODE-PURE", "SUB-INPUT", "K", "MODE-PAIR", "NO-BACKTRACK"],
     "C07": ["K", "SPAN-PROV", "READER-SIB", "INPUT-MISC", "GRAMMAR"],
     "C10": ["READER-SIB", "SPAN-PROV", "STREAM", "INPUT-MISC", "CHAR-SIB", "CHAR-PROV", "GRAMMAR"],
-    "C06": ["D:ALT-LINEAR", "D:ALT-POS", "D:PFAIL", "ORDER-ARMS", "ERR-SPAN", "MERGE-ARMS", "ENTRY", "K", "READER-SIB", "SPAN-PROV"],
-    "C08": ["K", "D:POISON", "D:ALT-LINEAR", "D:PFAIL", "MODE-PURE", "SUB-INPUT", "GRAMMAR", "D:KEEP*", "D:LIFO*", "HOOKS-SAVE-REWIND"],
-    "C09": ["K", "D:POISON", "RECURSE", "AFFINE", "GRAMMAR"],
-    "C11": ["K", "D:ALT-LINEAR", "D:ALT-POS", "D:PFAIL", "MEMO-KEY", "MEMO-WRITERS", "GRAMMAR"],
-    "C12": ["RECURSE", "ONCE", "CLONE-FIELDS", "K", "GRAMMAR"],
-    "C13": ["FREEZE", "STATICS", "OWN-STATE", "CLONE-FIELDS", "MODE-PAIR", "K"],
+    "C06": ["D:ALT-LINEAR", "D:ALT-POS", "D:PFAIL", "ORDER-ARMS", "ERR-SPAN", "MERGE-ARMS", "ENTRY", "K", "READER-SIB", "SPAN-PROV", "MODE-PAIR", "ERR-PROV"],
+    "C08": ["K", "D:POISON", "D:ALT-LINEAR", "D:PFAIL", "MODE-PURE", "SUB-INPUT", "GRAMMAR", "D:KEEP*", "D:LIFO*", "HOOKS-SAVE-REWIND", "MODE-PAIR", "NO-BACKTRACK"],
+    "C09": ["K", "D:POISON", "RECURSE", "AFFINE", "GRAMMAR", "MODE-PAIR"],
+    "C11": ["K", "D:ALT-LINEAR", "D:ALT-POS", "D:PFAIL", "MEMO-KEY", "MEMO-WRITERS", "GRAMMAR", "MODE-PAIR", "NO-BACKTRACK"],
+    "C12": ["RECURSE", "ONCE", "CLONE-FIELDS", "K", "GRAMMAR", "MODE-PAIR"],
+    "C13": ["FREEZE", "STATICS", "OWN-STATE", "CLONE-FIELDS", "MODE-PAIR", "K", "NO-BACKTRACK"],
     "C14": ["CHAR-SIB", "CHAR-PROV", "REGEX-ANCHOR", "K", "HOOKS-TOKEN", "SEQ-PROV", "MODE-PURE", "GRAMMAR"],
     "C15": ["K", "SUB-INPUT", "MODE-PAIR", "BUILDER-PROV", "GRAMMAR"],
-    "C16": ["K", "SUB-INPUT", "D:ALT-LINEAR", "D:PFAIL", "SPAN-PROV", "READER-SIB", "GRAMMAR"],
-    "C17": ["K", "D:ALT-LINEAR", "D:ALT-POS", "ERR-SPAN", "MODE-PAIR", "GRAMMAR"],
-    "C18": ["HOOKS-WRITERS", "HOOKS-TOKEN", "HOOKS-SAVE-REWIND", "SUB-INPUT", "D:POISON", "D:KEEP", "K", "GRAMMAR"],
+    "C16": ["K", "SUB-INPUT", "D:ALT-LINEAR", "D:PFAIL", "SPAN-PROV", "READER-SIB", "GRAMMAR", "MODE-PAIR"],
+    "C17": ["K", "D:ALT-LINEAR", "D:ALT-POS", "ERR-SPAN", "MODE-PAIR", "GRAMMAR", "ERR-PROV", "NO-BACKTRACK"],
+    "C18": ["HOOKS-WRITERS", "HOOKS-TOKEN", "HOOKS-SAVE-REWIND", "SUB-INPUT", "D:POISON", "D:KEEP", "K", "GRAMMAR", "MODE-PAIR", "NO-BACKTRACK"],
     "C19": ["UNSAFE-INV", "MAYBEUNINIT", "CONTAINER-PROV"],
-    "C20": ["D:PFAIL", "RECURSE", "INPUT-MISC", "NONCONSUMPTION-FWD", "MODE-PAIR", "K"],
+    "C20": ["D:PFAIL", "RECURSE", "INPUT-MISC", "NONCONSUMPTION-FWD", "MODE-PAIR", "K", "REGEX-ANCHOR"],
 }
 
 # properties whose typestate disciplines are restricted to the bodies of their own contract groups
